@@ -174,11 +174,10 @@ class PieceNode:
             if size != len(pathnode):
                 continue
             partial = pathnode.get_part(loc)
-            val = self._find_matches(filemap, paths[1:], data + partial)
-            if val:
+            if self._find_matches(filemap, paths[1:], data + partial):
                 dest_path = os.path.join(self.dest, pathnode.full)
                 copypath(loc, dest_path)
-            return val
+                return True
         return False
 
     def find_matches(self, filemap: dict, dest: str) -> bool:
